@@ -377,6 +377,8 @@ func protoAlphabet(role string, which string) []*protoEvent {
 		add(inEv("TestRequest(bad-length)", "1", false, false, "", true, func(w *world) []byte { return badLength(w.msg("1", "112=T2")) }))
 		add(inEv("TestRequest(length-1)", "1", false, false, "", true, func(w *world) []byte { return badLengthBy(w.msg("1", "112=T4"), -1) }))
 		add(inEv("Logout(length-3)", "5", false, false, "", true, func(w *world) []byte { return badLengthBy(w.msg("5"), -3) }))
+		add(inEv("Heartbeat(seq-empty)", "0", false, false, "", false, func(w *world) []byte { return withField(w.msg("0"), "34", "") }))
+		add(inEv("ResendRequest(begin-empty)", "2", false, false, "", true, func(w *world) []byte { return w.msg("2", "7=", "16=0") }))
 		add(inEv("ResendRequest(begin-not-numeric)", "2", false, false, "", true, func(w *world) []byte { return w.msg("2", "7=x", "16=0") }))
 		add(inEv("Logout(bad-checksum)", "5", false, false, "", true, func(w *world) []byte { return badChecksum(w.msg("5")) }))
 		add(inEv("Heartbeat(seq-missing,bad-checksum)", "0", false, false, "", false, func(w *world) []byte { return badChecksum(withField(w.msg("0"), "34", "\x00del")) }))
